@@ -4,7 +4,8 @@
 # `git -C /repo worktree remove --force /tmp/wt/confirm`).
 set -u
 S=$(realpath "$1")
-W=/tmp/wt/confirm
+W=${CONFIRM_WT:-/tmp/wt/confirm}
+L=/tmp/$(basename $W)
 if [ ! -d $W ]; then git -C /repo worktree add -q --detach $W HEAD || exit 2; fi
 cd $W && git checkout -q --detach $(git -C /repo rev-parse HEAD) && git checkout -- . && rm -f tests/seed_demo.rs
 FEAT=$(python3 -c "import json,sys; print(json.load(open('$S/meta.json')).get('features','') or '')")
@@ -13,12 +14,12 @@ export CARGO_NET_OFFLINE=true
 git apply --check $S/patch.diff || { echo "REJECTED patch does not apply"; exit 1; }
 cp $S/demo.rs tests/seed_demo.rs
 # 1. unmodified: demo passes
-cargo test --offline $FARG --test seed_demo >/tmp/confirm_demo0.log 2>&1 || { echo "REJECTED demo fails on the unmodified tree"; rm -f tests/seed_demo.rs; exit 1; }
+cargo test --offline $FARG --test seed_demo >$L.demo0.log 2>&1 || { echo "REJECTED demo fails on the unmodified tree"; rm -f tests/seed_demo.rs; exit 1; }
 # 2. modified: builds (default + serde), suite passes, demo fails
 git apply $S/patch.diff
-cargo build --offline --features serde >/tmp/confirm_build.log 2>&1 || { echo "REJECTED does not build with serde"; git checkout -- .; rm -f tests/seed_demo.rs; exit 1; }
-cargo test --offline --lib >/tmp/confirm_lib.log 2>&1 || { echo "REJECTED lib tests fail with the change"; git checkout -- .; rm -f tests/seed_demo.rs; exit 1; }
-cargo test --offline --test dateutils >/tmp/confirm_du.log 2>&1 || { echo "REJECTED dateutils tests fail with the change"; git checkout -- .; rm -f tests/seed_demo.rs; exit 1; }
-if cargo test --offline $FARG --test seed_demo >/tmp/confirm_demo1.log 2>&1; then echo "REJECTED demo passes with the change"; git checkout -- .; rm -f tests/seed_demo.rs; exit 1; fi
+cargo build --offline --features serde >$L.build.log 2>&1 || { echo "REJECTED does not build with serde"; git checkout -- .; rm -f tests/seed_demo.rs; exit 1; }
+cargo test --offline --lib >$L.lib.log 2>&1 || { echo "REJECTED lib tests fail with the change"; git checkout -- .; rm -f tests/seed_demo.rs; exit 1; }
+cargo test --offline --test dateutils >$L.du.log 2>&1 || { echo "REJECTED dateutils tests fail with the change"; git checkout -- .; rm -f tests/seed_demo.rs; exit 1; }
+if cargo test --offline $FARG --test seed_demo >$L.demo1.log 2>&1; then echo "REJECTED demo passes with the change"; git checkout -- .; rm -f tests/seed_demo.rs; exit 1; fi
 git checkout -- . ; rm -f tests/seed_demo.rs
-echo "CONFIRMED $(grep -c '^test .* ok' /tmp/confirm_lib.log) lib tests ok, demo fails with change: $(grep -E '^test result' /tmp/confirm_demo1.log | head -1)"
+echo "CONFIRMED $(grep -c '^test .* ok' $L.lib.log) lib tests ok, demo fails with change: $(grep -E '^test result' $L.demo1.log | head -1)"
